@@ -273,6 +273,59 @@ def _flatten_terminating_ifs(tree):
     return tree
 
 
+def _sink_result_returns(tree):
+    """`if c: ..; r = A  elif d: ..; r = B  else: ..; r = C` immediately followed by `return r`  ->  the return is copied to the end of
+    every arm (an arm that already leaves keeps its own exit).  Always behaviour-preserving; together with _inline_return_temps it makes
+    the result-variable idiom and the return-per-branch idiom one form."""
+    def arms_of(node):
+        """the leaf arms (statement lists) of an if / elif / else chain; None when the chain has no final else"""
+        out = [node.body]
+        if not node.orelse:
+            return None
+        if len(node.orelse) == 1 and isinstance(node.orelse[0], ast.If):
+            rest = arms_of(node.orelse[0])
+            if rest is None:
+                return None
+            return out + rest
+        return out + [node.orelse]
+
+    def assigns_last(arm, name):
+        last = arm[-1]
+        if isinstance(last, (ast.Return, ast.Raise)):
+            return True
+        tgt = last.targets[0] if isinstance(last, ast.Assign) and len(last.targets) == 1 else None
+        if isinstance(tgt, ast.Name) and tgt.id == name:
+            return True
+        if isinstance(last, ast.If):
+            sub = arms_of(last)
+            return sub is not None and all(assigns_last(a, name) for a in sub)
+        return False
+
+    def sink(arm, ret):
+        last = arm[-1]
+        if isinstance(last, (ast.Return, ast.Raise)):
+            return
+        if isinstance(last, ast.If):
+            for a in arms_of(last):
+                sink(a, ret)
+            return
+        arm.append(ast.copy_location(ast.Return(value=ast.copy_location(ast.Name(id=ret.value.id, ctx=ast.Load()), last)), last))
+
+    for blk in ast.walk(tree):
+        for fld in ("body", "orelse", "finalbody"):
+            b = getattr(blk, fld, None)
+            if not (isinstance(b, list) and len(b) >= 2 and isinstance(b[0], ast.stmt)):
+                continue
+            if isinstance(b[-1], ast.Return) and isinstance(b[-1].value, ast.Name) and isinstance(b[-2], ast.If):
+                arms = arms_of(b[-2])
+                if arms is not None and all(assigns_last(a, b[-1].value.id) for a in arms) \
+                        and any(not isinstance(a[-1], (ast.Return, ast.Raise)) for a in arms):
+                    for a in arms:
+                        sink(a, b[-1])
+                    del b[-1]
+    return tree
+
+
 def _inline_return_temps(tree):
     """`X = <expr>` immediately followed by `return X`, X bound and read nowhere else in the function  ->  `return <expr>`
     (the position of the assignment is kept).  Behaviour-preserving; makes `res = f(x); return res` and `return f(x)` one form."""
@@ -642,7 +695,7 @@ def normal_form(tree):
     tree = _unroll_constant_tables(tree)
     tree = ast.fix_missing_locations(_split_tuple_assigns(_ExprCanon().visit(tree)))
     tree = _forelse_to_flag(tree)
-    return _inline_return_temps(_flatten_terminating_ifs(_LoadNormaliser().visit(tree)))
+    return _inline_return_temps(_flatten_terminating_ifs(_LoadNormaliser().visit(_sink_result_returns(tree))))
 
 
 class Module:
